@@ -100,6 +100,15 @@ func main() {
 	case "describe":
 		os.Exit(cmdDescribe(os.Args[2:]))
 	case "list":
+		if len(os.Args) > 2 && os.Args[2] == "-json" {
+			var out []map[string]any
+			for _, p := range props.All() {
+				out = append(out, map[string]any{"id": p.ID, "title": p.Title, "explanation": p.Explanation, "not_decided": p.NotDecided, "assumptions": p.Assumptions})
+			}
+			b, _ := json.MarshalIndent(out, "", " ")
+			fmt.Println(string(b))
+			return
+		}
 		for _, p := range props.All() {
 			fmt.Println(p.ID, p.Title)
 		}
@@ -463,6 +472,8 @@ func checkOne(repo string, pr *props.Property, tier string) int {
 				case r.Killed:
 					st = "killed"
 					killed++
+				case r.Mutant.DocumentedMiss != "":
+					st = "not decided: " + r.Mutant.DocumentedMiss
 				}
 				if st == "missed" || strings.HasPrefix(st, "error") {
 					fmt.Printf("SELFTEST-MISS property=%s mutant=%s is not reported by this property's rules (%s)\n", pr.ID, r.Mutant.Name, st)
